@@ -235,8 +235,8 @@ impl EventGen for Container {
             if let (true, false, Some(text)) = (is_shape, svg_only_text, &inner_text) {
                 let mut el = self.0.clone();
                 // no content at all, or only white space (e.g. a line break between the
-                // tags) where there is a `text` attribute, leaves that attribute alone
-                if !(text.is_empty() || (text.trim().is_empty() && el.has_attr("text"))) {
+                // tags), is layout rather than text
+                if !text.trim().is_empty() {
                     el.set_attr("text", text);
                 }
                 if let Some((start, _end)) = self.0.event_range {
